@@ -25,7 +25,7 @@
 //!   obs      the observable state: db (rows of the SQLite file, second read-only connection, one read transaction)
 //!            and mem (listtowers; memok = it answered); same = the state was read again and has not changed
 //!   probe    listtowers + gettowerinfo of every tower: answered?
-//!   abort    a panic message appeared on the client's stderr              {site, msg}
+//!   abort    a panic message appeared on the client's stderr              {site, msg, poison}
 //!   kill     SIGKILL delivered
 //!   waited / note / skipped / other_req   bookkeeping of the script (not judged)
 //!   end      end of the scenario; inconclusive = timing assumptions that could not be met
@@ -863,17 +863,27 @@ impl Client {
             let sh = sh_trace;
             thread::spawn(move || {
                 let rd = BufReader::new(stderr);
+                let mut pending: Option<String> = None;
                 for line in rd.lines() {
                     let line = match line {
                         Ok(l) => l,
                         Err(_) => break,
                     };
                     let _ = writeln!(errf, "{line}");
+                    // "thread .. panicked at <site>:" is followed by the message; poison = the panic is the unwrap() of
+                    // a lock() on a mutex another panic has poisoned (a consequence, not a cause)
+                    if let Some(site) = pending.take() {
+                        let poison = line.contains("PoisonError");
+                        sh.trace.emit(json!({"ev":"abort","site":site,"msg":line,"poison":poison}));
+                    }
                     if let Some(p) = line.find("panicked at ") {
                         let site = line[p + 12..].trim_end_matches(':').to_owned();
                         panics.lock().unwrap().push(site.clone());
-                        sh.trace.emit(json!({"ev":"abort","site":site,"msg":line}));
+                        pending = Some(site);
                     }
+                }
+                if let Some(site) = pending.take() {
+                    sh.trace.emit(json!({"ev":"abort","site":site,"msg":"","poison":false}));
                 }
             });
         }
